@@ -2,7 +2,10 @@
    q-values of confidence.py (C15).  Definitions only.
    The Proteins container (made by read_fasta, verified as C16) is input data.  Oracles passed as data:
      [dm]    : what peptides.match_decoy returned (decoy peptide -> target peptide; target-only FASTA),
-     [order] : the row labels in the order left by DataFrame.sample(frac=1) inside groupby_max. *)
+     [order] : the row labels in the order left by DataFrame.sample(frac=1) inside groupby_max.
+   picked_protein relabels its trimmed copy of the peptide table 0..n-1 first thing (reset_index(drop=True),
+   /repo d0dad84), so a row's label IS its position in the table, whatever labels the caller's table carries
+   (permuted, strings, repeated, MultiIndex): pk_annotate numbers the rows with seq 0 n. *)
 From Mokaverif Require Import Model.Base Model.Strip Model.Tdc.
 Open Scope Z_scope.
 
@@ -73,7 +76,7 @@ Definition pk_pair_key (P : pk_proteins) (g : str) : str :=
   let f := pk_first_member g in
   match pk_get f (pk_protmap P) with Some d => d | None => f end.
 
-(* rows with their label, stripped sequence and group *)
+(* rows with their label (= position, see above), stripped sequence and group *)
 Record pk_arow := { pk_idx : nat; pk_r : pk_row; pk_strip : str; pk_grp : option str }.
 
 Definition pk_annotate (P : pk_proteins) (dmap : list (str * str)) (rows : list pk_row) : list pk_arow :=
